@@ -262,6 +262,7 @@ func (x *Exec) havocTarget(st *State, pre *SEnv, t *SX) {
 		}
 		n := x.freshConst("hv_"+name, arrayElem(cur.S))
 		x.setComp(st, name, Val{T: app("store", cur.T, ref, n), S: cur.S})
+		st.wrote(name, ref, "true")
 	}
 	switch {
 	case t.Op == "id":
@@ -426,6 +427,7 @@ func (x *Exec) evalBuiltin(st *State, e *ast.CallExpr, name string) []Val {
 		st.assume(fmt.Sprintf("(forall ((j Int)) (! (= (select %s j) (ite (and (<= %s j) (< j (+ %s %s))) (select %s (+ %s (- j %s))) (select %s j))) :pattern ((select %s j))))",
 			na, od, od, n, srcInner, app("sl_off", src.T), od, oldInner, na))
 		x.setComp(st, "arr_"+sortTag(es), Val{T: app("store", a.T, ref, na), S: a.S})
+		st.wrote("arr_"+sortTag(es), ref, app(">", n, "0"))
 		return one(Val{T: n, S: "Int", G: t})
 	case "delete":
 		m := x.eval(st, e.Args[0])
@@ -500,6 +502,7 @@ func (x *Exec) evalAppend(st *State, e *ast.CallExpr) Val {
 	nc := x.freshConst("newcap", "Int")
 	st.assume(and(app(">=", nc, newLen), app("<", nc, two63), app(">", nc, "0")))
 	x.setComp(st, "arr_"+sortTag(es), Val{T: app("ite", inplace, app("store", a.T, ref, newInner), app("store", a.T, r, newArr)), S: a.S})
+	st.wrote("arr_"+sortTag(es), ref, and(inplace, app(">", newLen, ln)))
 	res := app("ite", inplace, app("mk_Slice", ref, off, newLen, cp), app("mk_Slice", r, "0", newLen, nc))
 	c := x.freshConst("appended", "Slice")
 	st.assume(app("=", c, res))
